@@ -67,13 +67,19 @@ def probe(kind: str, tier: str):
     if kind == "nonbool_in_choice":
         ch = Choice(prompt="c", children=[Cfg("M1", "bool", prompt="m1"), If(cond=S("M1"), children=[Cfg("P", "int", prompt="p", defaults=[(L("5"), None)])]), Cfg("M2", "bool", prompt="m2")])
         return [ch], {"P": ["7", "5"], "M2": ["y"], "M1": ["y"]}, ["CONFIG_OLD_P CONFIG_P"]
+    if kind == "float_noncanonical":
+        src = Cfg("SRC", "bool", prompt="src", wsets=[("P", L("5"), None)], sets=[("P2", L("2.50"), None)])
+        return [Cfg("P", "float", prompt="p", defaults=[(L("1e2"), None)]), Cfg("P2", "float", prompt="p2", defaults=[(L("7"), None)]), Cfg("P3", "float", defaults=[(L("3"), S("SRC")), (L("0.10"), None)]), src], {"SRC": ["y", "n"], "P": ["5", "100"], "P2": ["2.5"]}, ["CONFIG_OLD_P CONFIG_P"]
+    if kind == "hex_int_indirect":
+        src = Cfg("SRC", "bool", prompt="src", wsets=[("P", L("0X1F"), None)], sets=[("P2", L("007"), None)])
+        return [Cfg("P", "hex", prompt="p", defaults=[(L("0x10"), None)]), Cfg("P2", "int", prompt="p2", defaults=[(L("7"), None)]), src], {"SRC": ["y", "n"], "P": ["0x1f"], "P2": ["7"]}, ["CONFIG_OLD_P CONFIG_P"]
     if kind == "select_imply":
         src = Cfg("SRC", "bool", prompt="src", selects=[("P", None)], implies=[("P2", None)])
         return [Cfg("P", "bool", prompt="p"), Cfg("P2", "bool", prompt="p2"), src], {"SRC": ["y", "n"], "P": ["n", "y"], "P2": ["n"]}, ["CONFIG_OLD_NP2 !CONFIG_P2"]
     raise ValueError(kind)
 
 
-PROBES = ("string", "hex", "float", "int_range", "bool", "choice3", "set_target", "wset_target", "promptless_before", "multi_def", "select_imply", "nonbool_in_choice")
+PROBES = ("string", "hex", "float", "int_range", "bool", "choice3", "set_target", "wset_target", "promptless_before", "multi_def", "select_imply", "nonbool_in_choice", "float_noncanonical", "hex_int_indirect")
 CONTEXTS = ("plain", "prompt_if_before", "prompt_if_after", "depends", "menu_depends", "menu_visible", "if", "comment_menu")
 
 
